@@ -20,7 +20,7 @@ From Cspuz Require Import Lib.PyErr Core.Expr Core.Program Backend.ExprFacts Gra
      Graph.Cycle Graph.CycleLemmas Graph.CycleCert Graph.CycleProofs Graph.CycleMain Graph.CycleFrame Graph.CycleSpec
      Graph.LineGraph Graph.CyclePrim
      Puzzle.PuzzleBase Puzzle.SatAbs Puzzle.ModelBase Puzzle.ModelLemmas Puzzle.CreekProofs
-     Puzzle.CycleFrameBase Puzzle.CycleCompose.
+     Puzzle.CycleFrameBase Puzzle.CycleCompose Puzzle.Slalom.
 Import ListNotations.
 Local Open Scope nat_scope.
 
@@ -223,9 +223,6 @@ Section PrimFrame.
     unfold satisfies. unfold new_cons in Hs. rewrite Hc0 in Hs. exact Hs.
   Qed.
 
-  (* the call succeeds on every frame *)
-  Lemma pf_total_aux : True.
-  Proof. exact I. Qed.
 End PrimFrame.
 
 Lemma frame_prim_call_ok h w n0 st0 :
@@ -402,3 +399,236 @@ Section GridCompose.
         apply on_line_ext. intros k Hk. rewrite HLlen in Hk. apply (Hag2 k Hk).
   Qed.
 End GridCompose.
+
+(* ------------------------------------------------------------------------------------------------------ *)
+(* 2b. fresh frame (the answer key), call, then m further boolean variables whose values the later          *)
+(*     constraints force (analogue of CastleWallCompose.cycle_frame_compose_aux)                           *)
+
+Definition frame_cycle_prim (h w : nat) : res (state * passed_result) :=
+  active_edges_single_cycle (frame_state h w) (AFrame h w (frame_hor h w) (frame_ver h w)) None true.
+
+(* overwrite the boolean variables B .. B+m-1 of an assignment *)
+Definition prim_splice (B m : nat) (en : env) (val : nat -> bool) : env :=
+  {| eb := fun i => if Nat.leb B i && Nat.ltb i (B + m) then val (i - B) else eb en i; ei := ei en |}.
+
+Lemma prim_splice_agree B m en val : agree_below B en (prim_splice B m en val).
+Proof.
+  intros i Hi. cbn [prim_splice eb ei]. destruct (Nat.leb_spec B i); [lia|]. split; reflexivity.
+Qed.
+Lemma prim_splice_at B m en val j : j < m -> eb (prim_splice B m en val) (B + j) = val j.
+Proof.
+  intros Hj. cbn [prim_splice eb]. destruct (Nat.leb_spec B (B + j)); [|lia].
+  destruct (Nat.ltb_spec (B + j) (B + m)); [|lia]. simpl. f_equal. lia.
+Qed.
+
+Lemma frame_cycle_prim_ok h w : exists st1 res, frame_cycle_prim h w = Ok (st1, res).
+Proof. apply (frame_prim_call_ok h w (frame_n h w)); [apply le_n|reflexivity]. Qed.
+
+Lemma frame_cycle_prim_next_id h w st1 res :
+  frame_cycle_prim h w = Ok (st1, res) -> next_id st1 = frame_n h w + S h * S w.
+Proof. intros Hcall. apply (pf_next1 h w (frame_n h w) (frame_state h w) st1 res (le_n _) eq_refl eq_refl Hcall). Qed.
+
+Theorem cycle_frame_compose_aux_prim h w m (extra : list expr) (local : answer -> bool)
+        (aux : answer -> nat -> bool) st1 res st ans :
+  frame_cycle_prim h w = Ok (st1, res) ->
+  vars st = vars st1 ++ repeat DBool m ->
+  Program.cons st = Program.cons st1 ++ extra ->
+  (forall en,
+     (forall y x, y <= h -> x <= w ->
+        eb en (frame_pid h w y x) = on_line (lattice (S h) (S w)) (eb en) (y * S w + x)) ->
+     forallb (holds gsem_c06 en) extra = true ->
+     local (map (fun i => b2z (eb en i)) (seq 0 (frame_n h w))) = true) ->
+  (forall en,
+     (forall y x, y <= h -> x <= w ->
+        eb en (frame_pid h w y x) = on_line (lattice (S h) (S w)) (eb en) (y * S w + x)) ->
+     local (map (fun i => b2z (eb en i)) (seq 0 (frame_n h w))) = true ->
+     (forall j, j < m -> eb en (next_id st1 + j) = aux (map (fun i => b2z (eb en i)) (seq 0 (frame_n h w))) j) ->
+     forallb (holds gsem_c06 en) extra = true) ->
+  ((exists en, model_of gsem_c06 en st /\ reads st en (seq 0 (frame_n h w)) = ans)
+   <-> Nat.eqb (length ans) (frame_n h w) && forallb is01 ans &&
+       single_loop_b (lattice (S h) (S w)) (fun k => isb (getz ans k)) && local ans = true).
+Proof.
+  set (N := frame_n h w). set (st0 := frame_state h w). set (L := lattice (S h) (S w)).
+  intros Hcall Hvars Hcons Hloc1 Hloc2.
+  assert (Hv0 : vars st0 = repeat DBool N) by reflexivity.
+  assert (Hc0 : Program.cons st0 = []) by reflexivity.
+  unfold frame_cycle_prim in Hcall. fold st0 in Hcall.
+  pose proof (pf_next1 h w N st0 st1 res (le_n _) Hv0 Hc0 Hcall) as HB. fold N in HB.
+  destruct (pf_post h w N st0 st1 res (le_n _) Hv0 Hc0 Hcall) as [_ [_ [Hv _]]].
+  set (B := next_id st1) in *.
+  assert (Hn0 : next_id st0 = N) by (apply (pf_next0 N st0 Hv0)).
+  assert (HLlen : length (edges L) = N) by apply lattice_edges_length.
+  assert (Hpid : forall y x, frame_pid h w y x = N + (y * S w + x)) by (intros; unfold frame_pid; fold N; lia).
+  assert (Hsplit : forall en, model_of gsem_c06 en st <->
+                              (model_of gsem_c06 en st1 /\ forallb (holds gsem_c06 en) extra = true)).
+  { intros en. unfold model_of, in_bounds, satisfies. rewrite Hvars, Hcons.
+    rewrite CycleLemmas.in_bounds_from_app, CycleLemmas.in_bounds_from_bools, andb_true_r.
+    rewrite forallb_app, andb_true_iff. tauto. }
+  assert (Hreads : forall en, reads st en (seq 0 N) = map (fun i => b2z (eb en i)) (seq 0 N)).
+  { intros en. eapply reads_bool_prefix. rewrite Hvars, Hv, Hv0, <- app_assoc. reflexivity. }
+  assert (Hext : forall en en', extends_sat gsem_c06 st0 st1 en en' -> model_of gsem_c06 en' st1).
+  { intros en en' [_ [H1 H2]]. split; [exact H1|exact H2]. }
+  assert (C6 := pf_c06 h w N st0 st1 res (le_n _) Hv0 Hc0 Hcall).
+  assert (Hread_on : forall en k, k < N ->
+            isb (getz (map (fun i => b2z (eb en i)) (seq 0 N)) k) = eb en k).
+  { intros en k Hk. rewrite getz_map_seq by exact Hk. apply b2z_isb. }
+  split.
+  - intros [en [Hm Hr]]. rewrite Hreads in Hr. subst ans.
+    apply Hsplit in Hm. destruct Hm as [Hm1 Hcl].
+    replace (Nat.eqb (length (map (fun i => b2z (eb en i)) (seq 0 N))) N) with true
+      by (rewrite map_length, seq_length; symmetry; apply Nat.eqb_refl).
+    replace (forallb is01 (map (fun i => b2z (eb en i)) (seq 0 N))) with true
+      by (rewrite forallb_map; symmetry; apply forallb_forall; intros; apply is01_b2z).
+    simpl andb. apply andb_true_iff. destruct (C6 en) as [EX PASS].
+    apply (pf_self st0 st1 Hc0) in Hm1. split.
+    + apply (single_loop_b_ext L (eb en) _ (lattice_wf h w)).
+      * intros k Hk. rewrite HLlen in Hk. symmetry. apply Hread_on. exact Hk.
+      * apply EX. exists en. exact Hm1.
+    + apply Hloc1; [|exact Hcl]. intros y x Hy Hx. rewrite Hpid. apply PASS; assumption.
+  - intros Hr.
+    apply andb_true_iff in Hr. destruct Hr as [Hr Hcl].
+    apply andb_true_iff in Hr. destruct Hr as [Hr Hloop].
+    apply andb_true_iff in Hr. destruct Hr as [Hlen H01]. apply Nat.eqb_eq in Hlen.
+    set (en0 := env_of_answer ans).
+    pose proof (answer_as_reading ans N Hlen H01) as Ha. fold en0 in Ha.
+    destruct (C6 en0) as [EX PASS].
+    destruct (proj2 EX Hloop) as [en' He].
+    pose proof He as [Hag _]. rewrite Hn0 in Hag.
+    set (en2 := prim_splice B m en' (aux ans)).
+    assert (Hag2 : agree_below B en' en2) by apply prim_splice_agree.
+    assert (Hsame : map (fun i => b2z (eb en2 i)) (seq 0 N) = ans).
+    { rewrite <- Ha. apply map_ext_in. intros i Hi. apply in_seq in Hi.
+      destruct (Hag2 i ltac:(lia)) as [E2 _]. destruct (Hag i ltac:(lia)) as [E _]. rewrite <- E2, E. reflexivity. }
+    assert (Hpass2 : forall y x, y <= h -> x <= w ->
+              eb en2 (frame_pid h w y x) = on_line L (eb en2) (y * S w + x)).
+    { intros y x Hy Hx. rewrite Hpid.
+      destruct (Hag2 (N + (y * S w + x))) as [E2 _]; [nia|].
+      rewrite <- E2, (PASS en' He y x Hy Hx).
+      apply on_line_ext. intros k Hk. fold L in Hk. rewrite HLlen in Hk.
+      destruct (Hag2 k ltac:(lia)) as [E3 _]. destruct (Hag k Hk) as [E _]. rewrite <- E3, E. reflexivity. }
+    exists en2. split; [|rewrite Hreads; exact Hsame].
+    apply Hsplit. split.
+    + apply (pf_model_closed h w N st0 st1 res (le_n _) Hv0 Hc0 Hcall en' en2); [rewrite <- HB; exact Hag2|].
+      exact (Hext _ _ He).
+    + apply Hloc2; [exact Hpass2|rewrite Hsame; exact Hcl|].
+      intros j Hj. rewrite Hsame. apply prim_splice_at. exact Hj.
+Qed.
+
+(* ------------------------------------------------------------------------------------------------------ *)
+(* 2c. two frames (the first one is the answer key and goes to the helper), call, then further integer and *)
+(*     boolean variables (analogue of SlalomCompose.sl_compose)                                            *)
+
+Definition sl_cycle_prim (fh fw : nat) : res (state * passed_result) :=
+  active_edges_single_cycle (sl_state0 fh fw) (AFrame fh fw (frame_hor fh fw) (frame_ver fh fw)) None true.
+
+Definition prim_merge (B : nat) (a later : env) : env :=
+  {| eb := fun i => if i <? B then eb a i else eb later i;
+     ei := fun i => if i <? B then ei a i else ei later i |}.
+
+Section SlCompose.
+  Variables fh fw : nat.
+  Let N := frame_n fh fw.
+  Let nvs := S fh * S fw.
+  Let st0 := sl_state0 fh fw.
+  Let L := lattice (S fh) (S fw).
+
+  Let Hle : N <= N + N.
+  Proof. lia. Qed.
+  Let Hv0 : vars st0 = repeat DBool (N + N).
+  Proof. reflexivity. Qed.
+  Let Hc0 : Program.cons st0 = [].
+  Proof. reflexivity. Qed.
+
+  Lemma sl_cycle_prim_ok : exists st1 res, sl_cycle_prim fh fw = Ok (st1, res).
+  Proof. apply (frame_prim_call_ok fh fw (N + N)); [exact Hle|reflexivity]. Qed.
+
+  Lemma sl_cycle_prim_next_id st1 res : sl_cycle_prim fh fw = Ok (st1, res) -> next_id st1 = N + N + nvs.
+  Proof. intros Hcall. apply (pf_next1 fh fw (N + N) st0 st1 res Hle Hv0 Hc0 Hcall). Qed.
+
+  Theorem sl_compose_prim (more : list vdecl) (extra : list expr) (local : answer -> bool) st1 res st ans :
+    sl_cycle_prim fh fw = Ok (st1, res) ->
+    vars st = vars st1 ++ more ->
+    Program.cons st = Program.cons st1 ++ extra ->
+    (forall en, single_loop_b L (fun k => isb (getz (map (fun i => b2z (eb en i)) (seq 0 N)) k)) = true ->
+       in_bounds_from en (next_id st1) more = true -> forallb (holds gsem_c06 en) extra = true ->
+       local (map (fun i => b2z (eb en i)) (seq 0 N)) = true) ->
+    (forall a, length a = N -> forallb is01 a = true ->
+       single_loop_b L (fun k => isb (getz a k)) = true -> local a = true ->
+       exists (dirv : nat -> bool) (later : env), forall en,
+         (forall k, k < N -> eb en k = isb (getz a k)) ->
+         (forall k, k < N -> eb en (N + k) = dirv k) ->
+         (forall i, next_id st1 <= i -> eb en i = eb later i /\ ei en i = ei later i) ->
+         in_bounds_from en (next_id st1) more = true /\ forallb (holds gsem_c06 en) extra = true) ->
+    ((exists en, model_of gsem_c06 en st /\ reads st en (seq 0 N) = ans)
+     <-> Nat.eqb (length ans) N && forallb is01 ans &&
+         single_loop_b L (fun k => isb (getz ans k)) && local ans = true).
+  Proof.
+    intros Hcall Hvars Hcons Hsound Hcomp.
+    unfold sl_cycle_prim in Hcall. fold st0 in Hcall.
+    pose proof (pf_next1 fh fw (N + N) st0 st1 res Hle Hv0 Hc0 Hcall) as HB. fold nvs in HB.
+    destruct (pf_post fh fw (N + N) st0 st1 res Hle Hv0 Hc0 Hcall) as [_ [_ [Hv _]]].
+    set (B := next_id st1) in *.
+    assert (HLlen : length (edges L) = N) by apply lattice_edges_length.
+    assert (Hsplit : forall en, model_of gsem_c06 en st <->
+              (model_of gsem_c06 en st1 /\ in_bounds_from en B more = true /\
+               forallb (holds gsem_c06 en) extra = true)).
+    { intros en. unfold model_of, in_bounds, satisfies. rewrite Hvars, Hcons.
+      rewrite CycleLemmas.in_bounds_from_app, forallb_app, !andb_true_iff. simpl. fold (next_id st1). fold B. tauto. }
+    assert (Hreads : forall en, reads st en (seq 0 N) = map (fun i => b2z (eb en i)) (seq 0 N)).
+    { intros en. eapply reads_bool_prefix. rewrite Hvars, Hv, Hv0, repeat_app, <- !app_assoc. reflexivity. }
+    assert (C6 : forall en,
+       (exists en', extends_sat gsem_c06 st0 st1 en en') <-> single_loop_b L (eb en) = true).
+    { intros en. apply (pf_c06 fh fw (N + N) st0 st1 res Hle Hv0 Hc0 Hcall en). }
+    assert (Hread_on : forall en k, k < N ->
+              isb (getz (map (fun i => b2z (eb en i)) (seq 0 N)) k) = eb en k).
+    { intros en k Hk. rewrite getz_map_seq by exact Hk. apply b2z_isb. }
+    split.
+    - intros [en [Hm Hr]]. rewrite Hreads in Hr. subst ans.
+      apply Hsplit in Hm. destruct Hm as [Hm1 [Hb Hcl]].
+      replace (Nat.eqb (length (map (fun i => b2z (eb en i)) (seq 0 N))) N) with true
+        by (rewrite map_length, seq_length; symmetry; apply Nat.eqb_refl).
+      replace (forallb is01 (map (fun i => b2z (eb en i)) (seq 0 N))) with true
+        by (rewrite forallb_map; symmetry; apply forallb_forall; intros; apply is01_b2z).
+      simpl andb. apply andb_true_iff.
+      assert (Hloop : single_loop_b L (eb en) = true).
+      { apply C6. exists en. apply (pf_self st0 st1 Hc0). exact Hm1. }
+      assert (Hloop' : single_loop_b L (fun k => isb (getz (map (fun i => b2z (eb en i)) (seq 0 N)) k)) = true).
+      { apply (single_loop_b_ext L (eb en) _ (lattice_wf fh fw)); [|exact Hloop].
+        intros k Hk. rewrite HLlen in Hk. symmetry. apply Hread_on. exact Hk. }
+      split; [exact Hloop'|]. apply Hsound; assumption.
+    - intros Hr.
+      apply andb_true_iff in Hr. destruct Hr as [Hr Hcl].
+      apply andb_true_iff in Hr. destruct Hr as [Hr Hloop].
+      apply andb_true_iff in Hr. destruct Hr as [Hlen H01]. apply Nat.eqb_eq in Hlen.
+      destruct (Hcomp ans Hlen H01 Hloop Hcl) as [dirv [later Hlater]].
+      set (en0 := {| eb := fun i => if i <? N then isb (getz ans i) else dirv (i - N); ei := fun _ => 0%Z |}).
+      assert (Hloop0 : single_loop_b L (eb en0) = true).
+      { apply (single_loop_b_ext L (fun k => isb (getz ans k)) _ (lattice_wf fh fw)); [|exact Hloop].
+        intros k Hk. rewrite HLlen in Hk. simpl. destruct (Nat.ltb_spec k N); [reflexivity|lia]. }
+      destruct (proj2 (C6 en0) Hloop0) as [en' He].
+      pose proof He as [Hag [Hib Hnc]]. rewrite (pf_next0 (N + N) st0 Hv0) in Hag.
+      set (en3 := prim_merge B en' later).
+      assert (Hag3 : agree_below B en' en3).
+      { intros i Hi. simpl. destruct (Nat.ltb_spec i B); [split; reflexivity|lia]. }
+      assert (HBN : N + N <= B) by lia.
+      assert (Hm1 : model_of gsem_c06 en3 st1).
+      { apply (pf_model_closed fh fw (N + N) st0 st1 res Hle Hv0 Hc0 Hcall en' en3); [fold nvs; rewrite <- HB; exact Hag3|].
+        split; [exact Hib|]. unfold satisfies. unfold new_cons in Hnc. rewrite Hc0 in Hnc. exact Hnc. }
+      assert (Hlow : forall k, k < N -> eb en3 k = isb (getz ans k)).
+      { intros k Hk. simpl. destruct (Nat.ltb_spec k B); [|lia].
+        destruct (Hag k ltac:(lia)) as [E _]. rewrite <- E. simpl.
+        destruct (Nat.ltb_spec k N); [reflexivity|lia]. }
+      assert (Hdir : forall k, k < N -> eb en3 (N + k) = dirv k).
+      { intros k Hk. simpl. destruct (Nat.ltb_spec (N + k) B); [|lia].
+        destruct (Hag (N + k) ltac:(lia)) as [E _]. rewrite <- E. simpl.
+        destruct (Nat.ltb_spec (N + k) N); [lia|]. f_equal. lia. }
+      assert (Hlat : forall i, B <= i -> eb en3 i = eb later i /\ ei en3 i = ei later i).
+      { intros i Hi. simpl. destruct (Nat.ltb_spec i B); [lia|]. split; reflexivity. }
+      destruct (Hlater en3 Hlow Hdir Hlat) as [Hb3 Hx3].
+      exists en3. split.
+      + apply Hsplit. split; [exact Hm1|]. split; assumption.
+      + rewrite Hreads. etransitivity; [|apply map_getz_seq]. rewrite Hlen.
+        apply map_ext_in. intros i Hi. apply in_seq in Hi. rewrite Hlow by lia.
+        apply isb_is01. rewrite forallb_forall in H01. apply H01. unfold getz. apply nth_In. lia.
+  Qed.
+End SlCompose.
